@@ -43,6 +43,15 @@ ANCHORED = [
     'vizier/_src/benchmarks/runners/benchmark_state.py',
     'vizier/_src/benchmarks/runners/benchmark_runner.py',
     'vizier/_src/algorithms/policies/designer_policy.py',
+    # the remaining designers that accept a seed (wrappers that hand it on, and the scalarizing ensemble
+    # that draws its weights from it).  BOCS and Harmonica accept no seed at all (they draw from the global
+    # numpy generator by design) and are therefore outside the property's quantifier.
+    'vizier/_src/algorithms/designers/scalarizing_designer.py',
+    'vizier/_src/algorithms/designers/scalarization.py',
+    'vizier/_src/algorithms/designers/unsafe_as_infeasible_designer.py',
+    'vizier/_src/algorithms/designers/scheduled_designer.py',
+    'vizier/_src/algorithms/designers/scheduled_gp_bandit.py',
+    'vizier/_src/algorithms/designers/scheduled_gp_ucb_pe.py',
 ]
 # one level of following: the modules the stored generators / seeds are handed to
 FOLLOWED = [
@@ -62,6 +71,7 @@ DESIGNERS = {
     'VizierGPBandit': 'gp_bandit.VizierGPBandit',
     'VizierGPUCBPEBandit': 'gp_ucb_pe.VizierGPUCBPEBandit',
     'CMAESDesigner': 'cmaes.CMAESDesigner',
+    'GaussianScalarizingEnsemble': 'scalarizing_designer.functions',
 }
 ALSO_SEED_USED = ['numpy_populations.UniformRandomSampler', 'numpy_populations.LinfMutation',
                   'vectorized_base.VectorizedOptimizer']
